@@ -180,3 +180,66 @@ Theorem xxh64_vectors :
   xxh64 [97;98;99] = 0x44bc2cf5ad770999 /\
   xxh64 [97;47;98;47;99] = 0xe94f700086cf8f20.
 Proof. repeat split; vm_compute; reflexivity. Qed.
+
+(* ---- name objects ----------------------------------------------------------------------------- *)
+
+(* builders return objects with empty caches, whatever was asked of the object they extend *)
+Theorem builders_are_fresh : forall o x,
+  (o_isl_sdk (obj_realm o x) = 0 /\ o_isl_srv (obj_realm o x) = 0 /\ o_hp (obj_realm o x) = None) /\
+  (o_isl_sdk (obj_swamp o x) = 0 /\ o_isl_srv (obj_swamp o x) = 0 /\ o_hp (obj_swamp o x) = None).
+Proof. intros. repeat split. Qed.
+
+(* an object that was never queried answers with the pure function of its own parts / path *)
+Theorem fresh_object_answers_pure : forall o n island depth maxf,
+  (o_isl_sdk o = 0 -> fst (obj_island_sdk o n) = island_sdk (obj_triple o) n) /\
+  (o_isl_srv o = 0 -> fst (obj_island_srv o n) = island_srv (obj_triple o) n) /\
+  (o_hp o = None -> fst (obj_path ROOT o island depth maxf) = pure_path ROOT (o_path o) island depth maxf).
+Proof.
+  intros o n island depth maxf. unfold obj_island_sdk, obj_island_srv, obj_path, cached_island.
+  repeat split; intro H; rewrite H; reflexivity.
+Qed.
+
+(* queries never change parts or path, and a repeated query with the same arguments repeats
+   the answer *)
+Theorem query_keeps_name : forall o n,
+  obj_triple (snd (obj_island_sdk o n)) = obj_triple o /\ o_path (snd (obj_island_sdk o n)) = o_path o /\
+  obj_triple (snd (obj_island_srv o n)) = obj_triple o /\ o_path (snd (obj_island_srv o n)) = o_path o.
+Proof.
+  intros o n. unfold obj_island_sdk, obj_island_srv, cached_island.
+  destruct (o_isl_sdk o =? 0), (o_isl_srv o =? 0); repeat split.
+Qed.
+
+Theorem repeated_query_repeats : forall o n,
+  0 < n -> fst (obj_island_sdk (snd (obj_island_sdk o n)) n) = fst (obj_island_sdk o n).
+Proof.
+  intros o n Hn. unfold obj_island_sdk, cached_island.
+  destruct (o_isl_sdk o =? 0) eqn:E; simpl.
+  - assert (H : (island_sdk (obj_triple o) n =? 0) = false).
+    { pose proof (island_in_range (obj_triple o) n Hn). apply N.eqb_neq. lia. }
+    unfold obj_triple in *. simpl. rewrite H. reflexivity.
+  - rewrite E. reflexivity.
+Qed.
+
+(* the usual sharing pattern: island numbers asked of the sanctuary and of the
+   sanctuary/realm prefix do not leak into a swamp name built from them *)
+Theorem prefix_queries_do_not_leak : forall s r w n1 n2 n island depth maxf,
+  let o1 := snd (obj_island_srv (snd (obj_island_sdk (obj_sanct s) n1)) n1) in
+  let o2 := snd (obj_island_srv (snd (obj_island_sdk (obj_realm o1 r) n2)) n2) in
+  let o3 := obj_swamp o2 w in
+  let t := {| sanct := s; realm := r; swamp := w |} in
+  fst (obj_island_sdk o3 n) = island_sdk t n /\
+  fst (obj_island_srv o3 n) = island_srv t n /\
+  o_path o3 = path_of t /\
+  fst (obj_path ROOT o3 island depth maxf) = model_path t island depth maxf.
+Proof.
+  intros s r w n1 n2 n island depth maxf. cbv zeta.
+  split; [reflexivity|]. split; [reflexivity|].
+  match goal with |- ?P = _ /\ _ => assert (Hpath : P = path_of {| sanct := s; realm := r; swamp := w |}) end.
+  { unfold path_of. cbn [sanct realm swamp]. cbn [o_path obj_swamp].
+    replace (o_path (snd (obj_island_srv (snd (obj_island_sdk (obj_realm
+              (snd (obj_island_srv (snd (obj_island_sdk (obj_sanct s) n1)) n1)) r) n2)) n2)))
+      with (s ++ SEP :: r) by reflexivity.
+    rewrite <- app_assoc. reflexivity. }
+  split; [exact Hpath|].
+  unfold obj_path. cbn [o_hp obj_swamp fst]. rewrite Hpath. reflexivity.
+Qed.
